@@ -121,7 +121,11 @@ structure OSt where
   loaded : Bool := false
   period : Nat := 0
   lastPass : Option Nat := none        -- time of the last admitted request
-  sat : Option (Nat × Nat) := none      -- (first, last) second of the current run of aligned saturating bursts
+  sat : Option (Nat × Bool) := none     -- (first second, all requests so far in first half-second buckets) of the current run of demand-saturated seconds
+  dsec : Nat := 0                       -- the second the demand counter belongs to
+  dcnt : Nat := 0                       -- single-token requests seen in that second
+  dfh : Bool := true                    -- … all of them at offsets < 500 ms
+  dok : Bool := true                    -- … and no other batch size
 
 /-- guard band around decision boundaries where a last-ulp rounding of the float expression could flip a decision -/
 def eps : Rat := 1 / 1000000000
@@ -169,15 +173,20 @@ def oracleReq (s : OSt) (n b k : Nat) : OSt × String :=
         | some t => decide (t + (max (idleSecs c) (Iv / 1000 + 2)) * 1000 ≤ s.now)
       -- the threshold in force is observably below T: a request was refused although it would have fitted under T
       let notFull : Bool := decide (k < n) && decide (((W + (k + 1) * b : Nat) : Rat) ≤ c.T)
-      -- run of consecutive seconds each holding exactly one aligned burst of single-token requests that was cut off
+      -- sustained demand: run of consecutive seconds each bringing more than T single-token requests (any offsets); the run is
+      -- known once a second is over, i.e. at the first request of the next second
       let sec := s.now / 1000
-      let aligned : Bool := decide (s.now % 1000 = 0) && decide (b = 1) && decide (k < n) && decide (Iv = 1000)
-      let sat : Option (Nat × Nat) :=
-        if !aligned then none else
-        match s.sat with
-        | some (s0, sl) => if sl + 1 = sec then some (s0, sec) else if sl = sec then none else some (sec, sec)
-        | none => some (sec, sec)
+      let newSec := sec != s.dsec
+      let prevSat : Bool := decide (s.dsec + 1 = sec) && s.dok && decide (c.T < (s.dcnt : Rat)) && decide (Iv = 1000)
+      let sat : Option (Nat × Bool) :=
+        if !newSec then s.sat
+        else if prevSat then (match s.sat with | some (s0, f) => some (s0, f && s.dfh) | none => some (s.dsec, s.dfh))
+        else none
+      let dcnt' := (if newSec then 0 else s.dcnt) + (if b = 1 then n else 0)
+      let dfh' := (if newSec then true else s.dfh) && decide (s.now % 1000 < 500)
+      let dok' := (if newSec then true else s.dok) && decide (b = 1)
       let elapsed : Nat := match sat with | some (s0, _) => sec - s0 | none => 0
+      let firstHalf : Bool := (match sat with | some (_, f) => f | none => true) && dfh'
       let r :=
         -- (a) the admitted rate never exceeds the configured threshold
         if k > 0 ∧ c.T < total then (if nan then "known:warmup-nan" else "bad above-threshold")
@@ -193,11 +202,14 @@ def oracleReq (s : OSt) (n b k : Nat) : OSt × String :=
            else if nan then "bad starved"
            else if (c.cf : Rat) * (1 + eps) ≤ c.T ∨ c.warn = 0 then "bad starved"
            else "?")
-        -- (d) after sustained (saturating, second-aligned) demand for the warm-up period the threshold is the full T
-        else if notFull ∧ sat.isSome ∧ s.period ≤ elapsed ∧ !nan ∧ (c.cf : Rat) ≤ c.T then
-          (if Known.lateRamp c s.period elapsed then "known:warmup-late-ramp" else "bad full-threshold-not-reached")
+        -- (d) after sustained demand (more than T single-token requests in every second) for the warm-up period the threshold is the full T
+        else if notFull ∧ sat.isSome ∧ dok' ∧ s.period ≤ elapsed ∧ !nan ∧ (c.cf : Rat) ≤ c.T then
+          -- demand confined to the first half-second buckets: the bound of `saturating_demand_drains`; otherwise the
+          -- phase of the demand can stall the warm-up for ever (`phase_stall_witness`)
+          (if !firstHalf then "known:warmup-phase-stall"
+           else if Known.lateRamp c s.period elapsed then "known:warmup-late-ramp" else "bad full-threshold-not-reached")
         else "ok"
-      ({ commit tk with sat := sat }, r)
+      ({ commit tk with sat := sat, dsec := sec, dcnt := dcnt', dfh := dfh', dok := dok' }, r)
 
 /-- a throttled probe judged against the exact threshold of the rule in force: `threshold ≤ 0` or `batch > threshold`
     must block; `batch ≤ threshold` after an idle time longer than the pacing interval must pass at once; a wait never
@@ -264,7 +276,7 @@ def ostep (s : OSt) (ts0 : List String) (line : String) : OSt × Option String :
           -- the claims are judged against the latest loaded rule
           let sys' := loadRule s.sys s.now (.wu T p cf iv) q valid sc Iv
           let kept := valid && (match s.sys.bound with | some b => b.same (.wu T p cf iv) && s.sys.behav == q | none => false)
-          let s' := { s with sys := sys', loaded := true, period := p, sat := none, lastAdm := if kept then s.lastAdm else 0 }
+          let s' := { s with sys := sys', loaded := true, period := p, sat := none, dsec := 0, dcnt := 0, lastAdm := if kept then s.lastAdm else 0 }
           (s', some (if res = (if valid then "ok 1" else "ok 0") then "ok" else "bad rule-validity"))
       | _, _, _, _ => (s, some "bad-op")
   | ["load", "ma", lt, ht, lm, hm, iv] => match lt.toInt?, ht.toInt?, lm.toInt?, hm.toInt?, iv.toNat? with
@@ -276,7 +288,7 @@ def ostep (s : OSt) (ts0 : List String) (line : String) : OSt × Option String :
           let valid := m.valid totalMem
           let sys' := loadRule s.sys s.now (.ma m iv) q valid sc Iv
           let kept := valid && (match s.sys.bound with | some b => b.same (.ma m iv) && s.sys.behav == q | none => false)
-          let s' := { s with sys := sys', loaded := true, sat := none, lastAdm := if kept then s.lastAdm else 0 }
+          let s' := { s with sys := sys', loaded := true, sat := none, dsec := 0, dcnt := 0, lastAdm := if kept then s.lastAdm else 0 }
           (s', some (if res = (if valid then "ok 1" else "ok 0") then "ok" else "bad rule-validity"))
       | _, _, _, _, _ => (s, some "bad-op")
   | ["mem", x] => match x.toInt? with
